@@ -391,4 +391,38 @@ def renderDiagnostic (file : Str) (src : List Str) (d : Diag) : Except Err (List
   let tail ← renderChildMessages d.children
   .ok (head ++ tail)
 
+/-! ## `span.to_span`: byte offsets of AST nodes to character columns (`_char_column`) -/
+
+/-- `len(c.encode("utf-8"))` -/
+def utf8Len (c : Char) : Nat :=
+  if c.val < 0x80 then 1 else if c.val < 0x800 then 2 else if c.val < 0x10000 then 3 else 4
+
+/-- `len(text.encode("utf-8"))` -/
+def utf8Bytes : Str → Nat
+  | [] => 0
+  | c :: cs => utf8Len c + utf8Bytes cs
+
+/-- `len(raw[:b].decode("utf-8", errors="ignore"))`: number of characters that lie completely
+    within the first `b` bytes -/
+def prefixChars : Str → Nat → Nat
+  | [], _ => 0
+  | c :: cs, b => if utf8Len c ≤ b then 1 + prefixChars cs (b - utf8Len c) else 0
+
+/-- `str.isascii()` -/
+def isAscii (s : Str) : Bool := s.all fun c => c.val < 0x80
+
+/-- `_char_column`, given the text of the source line -/
+def charColumn (text : Str) (byteOffset : Nat) : Nat :=
+  if isAscii text then byteOffset
+  else if byteOffset > utf8Bytes text then byteOffset
+  else prefixChars text byteOffset
+
+/-- `to_span` for a node with positions `(lineno, col_offset, end_lineno, end_col_offset)` (already
+    absolute lines); `src` = `linecache.getlines(file)` (lines *with* their terminators).
+    (The `end_col_offset or col_offset` / `end_lineno or lineno` fallbacks for `None`/0 are applied.) -/
+def toSpan (src : List Str) (l1 b1 l2 b2 : Nat) : Span :=
+  let l2' := if l2 = 0 then l1 else l2
+  let b2' := if b2 = 0 then b1 else b2
+  ⟨⟨l1, charColumn (src.getD (l1 - 1) []) b1⟩, ⟨l2', charColumn (src.getD (l2' - 1) []) b2'⟩⟩
+
 end GuppyVerif.Render
